@@ -21,18 +21,22 @@ static int pm_cb(struct dl_phdr_info *i, size_t sz, void *d) {
     if (p->p_type == PT_LOAD && (p->p_flags & PF_W)) { pm_h = xv_fnv((const void *)(i->dlpi_addr + p->p_vaddr), p->p_memsz, pm_h); pm_nb += p->p_memsz; pm_nseg++; } }
   return 0;
 }
+#include <dirent.h>
+static int pm_nfd(void) { int n = 0; DIR *d = opendir("/proc/self/fd"); struct dirent *e; if (!d) return -1; while ((e = readdir(d))) if (e->d_name[0] != '.') n++; closedir(d); return n; }
 static uint64_t pm_hash(void) { pm_h = XV_FNV0; pm_nb = 0; pm_nseg = 0; dl_iterate_phdr(pm_cb, NULL); return pm_h; }
 
 /* request 2001: an episode on a caller-owned crystal array (explicitly allowed to be modified; the process and the
  * built-in tables are not).  i[0] selects the variant; the observable result goes into the response like any query. */
 static void pm_write(const char *path, const char *txt) { FILE *f = fopen(path, "w"); if (f) { fputs(txt, f); fclose(f); } }
 static void pm_user_array(const xv_req *r, xv_resp *o, xrl_error **e, const char *base) {
-  static int files; static char good[700], bad[700], dup[700];
+  static int files; static char good[700], bad[700], dup[700], empty[700], nodef[700];
   Crystal_Array *a; Crystal_Struct *c, *g; int rv = 0, n = -1; char **l;
   if (!files) { files = 1;
     snprintf(good, sizeof good, "%s.good.dat", base); snprintf(bad, sizeof bad, "%s.bad.dat", base); snprintf(dup, sizeof dup, "%s.dup.dat", base);
     pm_write(good, "#F xv\n#S 14 XvA\n#UCELL 5.5 6.25 7.125 80.5 95.25 101.75\n#N 5\n#L Z F X Y Z\n14 1.0 0 0 0\n8 0.5 0.25 0.5 0.75\n#S 6 XvB\n#UCELL 3.5 3.5 3.5 90 90 90\n#L x\n6 1 0 0 0\n#EOF\n");
     pm_write(bad, "#F xv\n#S 14 XvA\n#UCELL 5.5 6.25 7.125 80.5 95.25 101.75\n#N 5\n#L Z F X Y Z\n14 1.0 0 0 0\n#S 6 XvB\n#USYSTEM no cell line\n#L x\n6 1 0 0 0\n#EOF\n");
+    snprintf(empty, sizeof empty, "%s.empty.dat", base); snprintf(nodef, sizeof nodef, "%s.nodef.dat", base);
+    pm_write(empty, ""); pm_write(nodef, "#F xv\n#UT a file without any crystal definition\n\n#EOF\n");
     pm_write(dup, "#F xv\n#S 14 Aaa\n#UCELL 5 5 5 90 90 90\n#L x\n14 1 0 0 0\n#S 14 Si\n#UCELL 4 4 4 90 90 90\n#L x\n14 1 0 0 0\n#EOF\n"); }
   a = Crystal_ArrayInit(r->i[1] & 3, NULL); if (!a) { o->status = 16; return; }
   c = Crystal_GetCrystal("Si", NULL, NULL); if (!c) { Crystal_ArrayFree(a); o->status = 16; return; }
@@ -43,6 +47,8 @@ static void pm_user_array(const xv_req *r, xv_resp *o, xrl_error **e, const char
   case 1: rv = rv * 10 + Crystal_ReadFile(good, a, e); break;
   case 2: rv = rv * 10 + Crystal_ReadFile(bad, a, e); break;
   case 3: rv = rv * 10 + Crystal_ReadFile("/nonexistent/xv.dat", a, e); break;
+  case 5: rv = rv * 10 + Crystal_ReadFile(empty, a, e); break;
+  case 6: rv = rv * 10 + Crystal_ReadFile(nodef, a, e); break;
   default: rv = rv * 10 + Crystal_ReadFile(dup, a, e); break;
   }
   g = Crystal_GetCrystal("Si", a, NULL);
@@ -89,7 +95,7 @@ typedef struct { xrl_error *e; int code; char *msg; char *msgptr; } pm_kept;
 static const int pm_errnos[8] = { ENOMEM, 0, ERANGE, EDOM, EINVAL, ENOENT, EINTR, EAGAIN };
 
 int main(int argc, char **argv) {
-  int poison = 0; FILE *f; long n, k; char *sbuf = NULL; long slen = 0; xv_req *rq; xv_resp *rs; pm_kept *kept; int nkept = 0, changed = 0;
+  int poison = 0, nfd0, nfd1; FILE *f; long n, k; char *sbuf = NULL; long slen = 0; xv_req *rq; xv_resp *rs; pm_kept *kept; int nkept = 0, changed = 0;
   uint64_t h0, h1; char loc0[512], loc1[512], cwd0[1024], cwd1[1024], p1[600], p2[600]; int fd1, fd2; struct stat st1, st2; long added = 0;
   if (argc < 7 || strcmp(argv[1], "run")) { fprintf(stderr, "usage: puremon run req str resp msg report\n"); return 2; }
   setlocale(LC_ALL, "");
@@ -108,7 +114,7 @@ int main(int argc, char **argv) {
   fd1 = open(p1, O_RDWR | O_CREAT | O_TRUNC, 0644); fd2 = open(p2, O_RDWR | O_CREAT | O_TRUNC, 0644);
   fflush(stdout); fflush(stderr); dup2(fd1, 1); dup2(fd2, 2);
   snprintf(loc0, sizeof loc0, "%s", setlocale(LC_ALL, NULL)); if (!getcwd(cwd0, sizeof cwd0)) cwd0[0] = 0;
-  h0 = pm_hash();
+  h0 = pm_hash(); nfd0 = pm_nfd();
   if (getenv("XV_XRAYINIT")) XRayInit();
   poison = getenv("XV_ERRNO") != NULL;
   for (k = 0; k < n; k++) {
@@ -128,7 +134,7 @@ int main(int argc, char **argv) {
       else xrl_error_free(e); }
   }
   for (k = 0; k < nkept; k++) { if ((int)kept[k].e->code != kept[k].code || kept[k].e->message != kept[k].msgptr || strcmp(kept[k].e->message, kept[k].msg)) changed++; }
-  h1 = pm_hash();
+  h1 = pm_hash(); nfd1 = pm_nfd();
   snprintf(loc1, sizeof loc1, "%s", setlocale(LC_ALL, NULL)); if (!getcwd(cwd1, sizeof cwd1)) cwd1[0] = 0;
   fflush(stdout); fflush(stderr); fstat(fd1, &st1); fstat(fd2, &st2);
   for (k = 0; k < nkept; k++) { xrl_error_free(kept[k].e); free(kept[k].msg); }
@@ -138,10 +144,11 @@ int main(int argc, char **argv) {
   fclose(f);
   f = fopen(argv[6], "w"); if (!f) return 2;
   fprintf(f, "{\"h0\":\"%016llx\",\"h1\":\"%016llx\",\"hashed_bytes\":%zu,\"segments\":%d,\"locale_before\":\"%s\",\"locale_after\":\"%s\",\"cwd_same\":%d,"
-             "\"stdout_bytes\":%ld,\"stderr_bytes\":%ld,\"errors_kept\":%d,\"errors_changed\":%d,\"builtin_added\":%ld,\"requests\":%ld,\"caller_objects_modified\":%ld,\"answers_changed_on_same_object\":%ld,\"errno_poisoned\":%d}\n",
-          (unsigned long long)h0, (unsigned long long)h1, pm_nb, pm_nseg, loc0, loc1, !strcmp(cwd0, cwd1), (long)st1.st_size, (long)st2.st_size, nkept, changed, added, n, pm_objmod, pm_objdep, poison);
+             "\"stdout_bytes\":%ld,\"stderr_bytes\":%ld,\"errors_kept\":%d,\"errors_changed\":%d,\"builtin_added\":%ld,\"requests\":%ld,\"caller_objects_modified\":%ld,\"answers_changed_on_same_object\":%ld,\"errno_poisoned\":%d,\"open_descriptors_before\":%d,\"open_descriptors_after\":%d}\n",
+          (unsigned long long)h0, (unsigned long long)h1, pm_nb, pm_nseg, loc0, loc1, !strcmp(cwd0, cwd1), (long)st1.st_size, (long)st2.st_size, nkept, changed, added, n, pm_objmod, pm_objdep, poison, nfd0, nfd1);
   fclose(f);
   unlink(p1); unlink(p2);
-  { char t[700]; snprintf(t, sizeof t, "%s.good.dat", argv[6]); unlink(t); snprintf(t, sizeof t, "%s.bad.dat", argv[6]); unlink(t); snprintf(t, sizeof t, "%s.dup.dat", argv[6]); unlink(t); }
+  { char t[700]; snprintf(t, sizeof t, "%s.good.dat", argv[6]); unlink(t); snprintf(t, sizeof t, "%s.bad.dat", argv[6]); unlink(t); snprintf(t, sizeof t, "%s.dup.dat", argv[6]); unlink(t);
+    snprintf(t, sizeof t, "%s.empty.dat", argv[6]); unlink(t); snprintf(t, sizeof t, "%s.nodef.dat", argv[6]); unlink(t); }
   return 0;
 }
